@@ -115,9 +115,11 @@ class Verifier(Engine):
                 rel = self.repo.module_rel_of(p)
                 if rel is not None:
                     return self.resolve_global(rel, attr)
-                return Py("ext", "%s.%s" % (p, attr))
+                ev_ = self.ext_value("%s.%s" % (p, attr))
+                return ev_ if ev_ is not None else Py("ext", "%s.%s" % (p, attr))
             if k == "ext":
-                return Py("ext", "%s.%s" % (p, attr))
+                ev_ = self.ext_value("%s.%s" % (p, attr))
+                return ev_ if ev_ is not None else Py("ext", "%s.%s" % (p, attr))
             if k == "class":
                 rel, cname = p
                 vals = self.enum_values(cname)
@@ -171,6 +173,18 @@ class Verifier(Engine):
             if self.reg.contract_for("ext", "%s.%s" % (cname, attr)) is not None or cname == "ReMatch":
                 return Py("bound", (base, attr))
             raise Unsupported("attribute %s.%s is neither a declared field nor a member" % (cname, attr))
+        if t_.kind == "val" and T.value_class_of_sort(t_.args[0]) is not None:
+            cname, vfields = T.value_class_of_sort(t_.args[0])
+            if attr in [f for f, _ in vfields]:
+                term, ft = T.val_field(t_, base.t, attr)
+                return V(ft, term)
+            mem = self.member(cname, attr)
+            if mem is not None:
+                rel, c, fdef, decos = mem
+                if "property" in decos:
+                    return self.call_function(rel, "%s.%s" % (c, attr), base, [], {}, as_property=True)
+                return Py("bound", (base, attr))
+            raise Unsupported("attribute %s of value class %s" % (attr, cname))
         if t_.kind == "val":
             fname = "%s_%s" % (t_.args[0], attr)
             if fname in self.reg.logic.funcs:
@@ -342,6 +356,9 @@ class Verifier(Engine):
             if isinstance(e, ast.Starred):
                 raise Unsupported("starred list element")
             vals.append(self.ev_v(e))
+        h = getattr(self, "_assign_hint", None)
+        if h is not None and h.kind == "list":
+            return self.new_list(h, vals)
         et = vals[0].ty if vals else self.hint_elem_type()
         return self.new_list(Ty("list", et), vals)
 
@@ -437,7 +454,8 @@ class Verifier(Engine):
         raise Unsupported("slice of %r" % (base.ty,))
 
     def ev_ListComp(self, n):
-        raise Unsupported("list comprehension (give the enclosing function a contract-level model)")
+        # only meaningful as the argument of all()/any(); any other use is rejected where it is consumed
+        return Py("genexp", (n, dict(self.st.loc)))
 
     def ev_GeneratorExp(self, n):
         return Py("genexp", (n, dict(self.st.loc)))
@@ -689,6 +707,9 @@ class Verifier(Engine):
     def isinstance(self, v, cls):
         if isinstance(cls, Py) and cls.kind == "class":
             cname = cls.p[1]
+            if isinstance(v, V) and v.ty.kind == "val":
+                vc = T.value_class_of_sort(v.ty.args[0])
+                return mk_bool(vc is not None and vc[0] == cname)
             if isinstance(v, V) and v.ty.is_reflike:
                 t = v.t
                 return V(T.BOOL, AND(t != NONE, self.isinstance_term(t, cname)))
@@ -887,6 +908,12 @@ class Verifier(Engine):
             if mem is not None:
                 return self.call_function(mem[0], "%s.%s" % (mem[1], name), obj, args, kwargs)
             return self.call_ext("%s.%s" % (cname, name), obj, args, kwargs)
+        if k == "val" and T.value_class_of_sort(obj.ty.args[0]) is not None:
+            cname, _ = T.value_class_of_sort(obj.ty.args[0])
+            mem = self.member(cname, name)
+            if mem is not None:
+                return self.call_function(mem[0], "%s.%s" % (mem[1], name), obj, args, kwargs)
+            raise Unsupported("method %s of value class %s" % (name, cname))
         if k == "val":
             return self.call_ext("%s.%s" % (obj.ty.args[0], name), obj, args, kwargs)
         raise Unsupported("method %s on %r" % (name, obj.ty))
@@ -938,6 +965,8 @@ class Verifier(Engine):
             return V(Ty("ref", cname), r)
         if cname not in self.reg.classes:
             raise Unsupported("constructor of undeclared class %s" % cname)
+        if cname in T.VALUE_CLASSES:
+            return self.construct_value(cname, args, kwargs)
         init = self.member(cname, "__init__")
         r = self.new_ref(Ty("ref", cname), cname.lower().strip("_"))
         self.assume(self.typeof(r) == self.class_id(cname))
@@ -945,6 +974,30 @@ class Verifier(Engine):
         if init is not None:
             self.call_function(init[0], "%s.__init__" % init[1], obj, args, kwargs)
         return obj
+
+    def construct_value(self, cname, args, kwargs):
+        """Constructor of an immutable value class: __init__ must be `self._f = f` for every declared field."""
+        sortname, vfields = T.VALUE_CLASSES[cname]
+        init = self.member(cname, "__init__")
+        if init is None:
+            raise Unsupported("value class %s without __init__" % cname)
+        fdef = init[2]
+        body = strip_docstring(fdef.body)
+        assigned = {}
+        for st_ in body:
+            ok = (isinstance(st_, ast.Assign) and len(st_.targets) == 1 and isinstance(st_.targets[0], ast.Attribute)
+                  and isinstance(st_.targets[0].value, ast.Name) and st_.targets[0].value.id == "self" and isinstance(st_.value, ast.Name))
+            if not ok:
+                raise SourceError("%s.__init__ is no longer a plain field initialiser (value-class model does not attach)" % cname)
+            assigned[st_.targets[0].attr] = st_.value.id
+        env = self.bind_args(fdef, NONE_V, args, kwargs)
+        terms = []
+        for f, tstr in vfields:
+            if f not in assigned:
+                raise SourceError("%s.__init__ does not initialise %s" % (cname, f))
+            terms.append(self.coerce(env[assigned[f]], tstr).t)
+        t_ = Ty("val", sortname)
+        return V(t_, T.val_mk(t_, terms))
 
     # ---- repo functions: inline or by contract
     def call_function(self, rel, qualname, selfv, args, kwargs, as_property=False, clsval=None):
@@ -1104,6 +1157,7 @@ class Verifier(Engine):
         # 2. outcomes
         outcomes = ["normal"] + sorted(con.raises.keys())
         k = self.choose(len(outcomes), "outcome of " + label)
+        pc_before = list(self.st.glob) + list(self.st.pc)
         old_heap = dict(self.st.heap)
         self.havoc(con.modifies, env, allocates=bool(con.fresh_result or getattr(con, 'allocates', False)))
         saved_old = self.old_heap
@@ -1121,7 +1175,7 @@ class Verifier(Engine):
                 env["result"] = res
                 for cl in con.ensures:
                     self.assume(self.spec(cl.expr, env))
-                self.probes.append(("%s::state after call %s at `%s` is consistent" % (self.cur_func, label, site), list(self.st.glob) + list(self.st.pc)))
+                self.probes.append(("%s::state after call %s at `%s` is consistent" % (self.cur_func, label, site), list(self.st.glob) + list(self.st.pc), pc_before))
                 return res
             ename = outcomes[k]
             exact = not ename.endswith("+")
@@ -1261,6 +1315,9 @@ class Verifier(Engine):
             v = self.ev_v(a[0])
             h = self.old_heap if self.old_heap is not None else self.entry_heap
             return V(T.BOOL, z3.Not(z3.Select(h.get("$alloc", self._init_heap.get("$alloc", self.alloc_map())), v.t)))
+        if name == "snap_key":
+            ks, n, idx, kt = self._last_dict_snapshot
+            return V(kt, z3.Select(ks, self.coerce(self.ev_v(a[0]), T.INT).t))
         if name == "allocated":
             v = self.ev_v(a[0])
             return V(T.BOOL, z3.Select(self.alloc_map(), v.t))
